@@ -248,7 +248,7 @@ def walks(r, max_len=300):
     outp = os.path.join(sd, "walks.ndjson")
     with open(inp, "w") as fh:
         fh.write(r.out)
-    p = run([_walker_bin, inp, outp, str(max_len)], timeout=900)
+    p = run([_walker_bin, inp, outp, str(max_len)], timeout=3600)
     stats = json.loads(p.stdout.strip().splitlines()[-1])
     if stats["covered"] != stats["transitions"]:
         raise FrameworkError("covering walks traverse %d of %d transitions" % (stats["covered"], stats["transitions"]))
